@@ -1043,6 +1043,10 @@ def check(program, rep):
     from .. import namelink as _nl
     rep.guard("C10-R5", _nl.rule, program, rep, "C10-R5",
               [m for m in sorted(program.modules) if m.startswith("rig.machine_control")] + [m for m in sorted(program.modules) if m.startswith("rig.routing_table")] + ["rig.place_and_route.routing_tree"])
+    # every command of this operation travels under a sequence number: the
+    # numbers fit the 16-bit wire field and use all of it (C06-R2)
+    from . import C06 as _C06
+    rep.guard("C06-R2", _C06.r2_seq_numbers, program, rep, folder)
     return finish(rep, program, EXPLANATION, NOT_DECIDED,
                   trusted=["struct format semantics", "documented command "
                            "word layout (count<<16 | app_id<<8 | op)"])
